@@ -377,6 +377,26 @@ EXPECT_STMT = {
 }
 
 
+# kernels of which only a part is translated: everything AROUND the translated part must read exactly so (a statement added
+# before or after the loop would otherwise escape the tie between source and model)
+SKELETON = {
+    "logCounterStep": ["one = uint16(1)", "for i in range(value): <translated>", "return (counter, rand_ptr)"],
+    "randNext": ["if rand_ptr == uint64(2048): <translated>", "return (rand_batch[rand_ptr - uint64(1)], rand_ptr)"],
+}
+
+
+def _skeleton(fn):
+    out = []
+    for s_ in fn.body:
+        if isinstance(s_, ast.Expr) and isinstance(s_.value, ast.Constant):
+            continue
+        if isinstance(s_, (ast.For, ast.If)):
+            out.append(ast.unparse(s_).split("\n")[0] + " <translated>")
+        else:
+            out.append(ast.unparse(s_))
+    return out
+
+
 def translate_monitor():
     """`parallel_add`'s exit-code monitor: body of `for i, p in enumerate(workers)` inside `while any_none`.
     Effects are abstracted to flags: `closed` (both queues closed) and `killedAll` (every worker killed)."""
@@ -442,6 +462,11 @@ def render(group):
                 got = ast.unparse(stmts[idx])
                 if got != want:
                     raise TranslateError(f"{spec['func']}: expected `{want}`, found `{got}`")
+            if name in SKELETON:
+                src, tree = _parse(os.path.join(REPO, "sketchnu", spec["file"]))
+                got = _skeleton(_func(tree, spec["func"]))
+                if got != SKELETON[name]:
+                    raise TranslateError(f"{spec['func']}: the statements around the translated part read {got!r}, expected {SKELETON[name]!r}")
             L.append(translate_kernel(name, spec))
         except TranslateError as e:
             errors.append(f"{name}: {e}")
